@@ -48,7 +48,7 @@ def run(chk, repo, tier):
         ok_r = ok_r and r.nonneg and r.integer
         det = f'range {r!r}'
         ps = draw_atoms(p.ret, 'm:poisson')
-        okp = len(ps) == 1 and from_seed(ps[0]) and ps[0][2][1] == S('img')
+        okp = len(ps) == 1 and from_seed(ps[0]) and (kw(ps[0][2], 'lam') == S('img') or ps[0][2][1] == S('img'))
         chk.ob('C18-g', 'D-provenance', f.key, 'Poisson rate is the signal', okp,
                f'draw: {nf.fmt_atom(ps[0])[:120]}' if ps else 'no poisson draw', f.loc(p.node))
     chk.ob('C18-b', 'R-range', f.key, 'result integer-valued and non-negative', ok_r, det, f.loc())
@@ -100,7 +100,7 @@ def run(chk, repo, tier):
             okc = from_seed(a) and isinstance(loc, Poly) and loc.is_zero() and scale == S('electrons') and size == ishape
             det = f'normal(loc={fmt(loc)}, scale={fmt(scale)}, size={fmt(size)})'
         elif len(sn) == 1 and noise == S('electrons') * Poly.atom(sn[0]):
-            okc = from_seed(sn[0]) and sn[0][2][1] == ishape
+            okc = from_seed(sn[0]) and (kw(sn[0][2], 'size') == ishape or sn[0][2][1] == ishape)
             det = 'electrons * standard_normal(img.shape)'
         else:
             det = f'noise term {fmt(noise)[:160]}'
